@@ -407,6 +407,12 @@ def report(prop, mod, a, outs, seed, t0):
             violations.append((n, path, ' no-failing-input-found'))
         else:
             undecided.append(r)
+    # failing cases of a bounded stand-in that are listed findings
+    for b in bounded:
+        if not b['ok'] and b['name'] in open_f:
+            f_ = open_f[b['name']]
+            known_hits.setdefault(id(f_), (f_, []))[1].append(b['name'])
+            b['known_finding'] = True
     for f_, ns in known_hits.values():
         known_lines.append('KNOWN-FINDING: property=%s %s [%d obligation%s: '
                            '%s]' % (prop, f_.get('what', ''), len(ns),
@@ -500,11 +506,11 @@ def report(prop, mod, a, outs, seed, t0):
             print('VIOLATION property=%s replay=%s obligation=%s%s' % (
                 prop, path, n, tail))
         return 1
-    if any(not b['ok'] for b in bounded):
+    if any(not b['ok'] and not b.get('known_finding') for b in bounded):
         # a bounded stand-in is never counted as proved, but a failing case
         # it found is a concrete failing input on the real code
         for b in bounded:
-            if not b['ok']:
+            if not b['ok'] and not b.get('known_finding'):
                 path = os.path.join(VERIF, 'replays', '%s__bounded_%s.json'
                                     % (prop, b['name'].replace('/', '_')))
                 with open(path, 'w') as f:
@@ -536,4 +542,13 @@ def _write_replay(path, prop, r, why):
 
 
 if __name__ == '__main__':
-    sys.exit(main())
+    os.environ.setdefault('PYVC_RUN_ID', '%d' % os.getpid())
+    try:
+        rc = main()
+    finally:
+        try:
+            from . import native as _native
+            _native.cleanup_builds()
+        except Exception:
+            pass
+    sys.exit(rc)
